@@ -32,8 +32,11 @@ class ToolError(Exception):
     pass
 
 
+_T0 = time.time()
+
+
 def log(*a):
-    print(*a, file=sys.stderr, flush=True)
+    print("[%6.1fs]" % (time.time() - _T0), *a, file=sys.stderr, flush=True)
 
 
 # ----------------------------------------------------------------------------- build
@@ -410,16 +413,44 @@ def run_case(case, keep=False):
                              stdin=subprocess.PIPE if stdin_data is not None else subprocess.DEVNULL,
                              stdout=subprocess.PIPE, stderr=subprocess.PIPE, start_new_session=True)
         timed_out = False
+        blocked_in_wait = False
         try:
             out, err = p.communicate(stdin_data, timeout=timeout)
         except subprocess.TimeoutExpired:
-            timed_out = True
-            try:
-                os.killpg(p.pid, signal.SIGKILL)
-            except OSError:
-                pass
-            p.kill()
-            out, err = p.communicate()
+            # the shell itself is still running = a time-out; the shell has exited but a program it left behind
+            # (a background job in its own process group) keeps the output pipes open = not a time-out
+            timed_out = p.poll() is None
+            blocked_in_wait = False
+            if timed_out:
+                try:
+                    with open("/proc/%d/syscall" % p.pid) as f:
+                        blocked_in_wait = f.read().split()[0] == "61"      # wait4: the shell waits for a child
+                except (OSError, IndexError):
+                    pass
+            out, err = b"", b""
+            for _ in range(50):
+                for q in session_pids(p.pid):
+                    try:
+                        os.kill(q, signal.SIGKILL)
+                    except OSError:
+                        pass
+                try:
+                    os.killpg(p.pid, signal.SIGKILL)
+                except OSError:
+                    pass
+                try:
+                    out, err = p.communicate(timeout=0.5)
+                    break
+                except subprocess.TimeoutExpired:
+                    continue
+            else:
+                p.kill()
+                for f in (p.stdout, p.stderr):
+                    try:
+                        f.close()
+                    except Exception:  # noqa
+                        pass
+                p.wait()
         log_at_exit = read_log(d) if case.get("snapshot_log_at_exit") else None
         alive_at_exit = len(session_pids(p.pid)) if case.get("count_alive_at_exit") else None
         # wait for / kill stragglers of the session (background helpers run in their own groups)
@@ -441,6 +472,7 @@ def run_case(case, keep=False):
             "stdout": out.decode("utf-8", "replace"),
             "stderr": err.decode("utf-8", "replace"),
             "timed_out": timed_out,
+            "blocked_in_wait": blocked_in_wait,
             "log": read_log(d),
             "wall": time.time() - t0,
             "cwd_root": cwd,
